@@ -3,6 +3,7 @@ on an exact virtual-time loop, with scripted / removing / label based sources, a
 shims installed on module globals of taskiq.cli.scheduler.run (datetime, asyncio.sleep, delayed_send, get_task_delay).
 Nothing of /repo is re-implemented here."""
 import asyncio
+import collections
 import contextvars
 import datetime as dt
 import sys
@@ -60,6 +61,7 @@ class St:
     log = None
     attempts = None
     src_index = None
+    by_task = None
 
 
 def now_us():
@@ -78,6 +80,15 @@ class VDT(dt.datetime):
 
 
 def sid_of(task):
+    """which entry of the case a ScheduledTask stands for.  The number travels where the case's payload shape (`pay.carrier`)
+    put it: first positional argument (the default), kwargs["sid"], labels["sid"], or - for a schedule that carries no number
+    at all - the name of its task (such an entry is the only one of its task)."""
+    if type(task.kwargs.get("sid")) is int:
+        return task.kwargs["sid"]
+    if type(task.labels.get("sid")) is int:
+        return task.labels["sid"]
+    if task.task_name in St.by_task:
+        return St.by_task[task.task_name]
     return task.args[0]
 
 
@@ -172,14 +183,57 @@ def cron_offset_of(e):
     return dt.timedelta(microseconds=off["us"])
 
 
+class SubDT(dt.datetime):
+    """a datetime subclass (what pendulum / arrow-like libraries hand out)"""
+
+
+def time_of(e):
+    """the one-shot's time as the case's payload shape gives it: naive UTC (default), aware at a fixed offset (`pay.tz`,
+    minutes), optionally as an instance of a datetime subclass (`pay.tcls`)"""
+    p = e.get("pay") or {}
+    if p.get("tz") is not None:
+        t = (EP + dt.timedelta(microseconds=e["T"])).astimezone(dt.timezone(dt.timedelta(minutes=p["tz"])))
+    elif not e.get("naive", True):
+        t = EP + dt.timedelta(microseconds=e["T"])
+    else:
+        t = to_naive(e["T"])
+    if p.get("tcls"):
+        t = SubDT.combine(t.date(), t.timetz())
+    return t
+
+
+def payload_of(e):
+    """(args, kwargs, labels, extra keys) of the schedule as the case's `pay` describes them; None = the key is left out
+    (label dict only).  args: a list, a tuple or a deque (pydantic turns the last two into a list), with the entry's number
+    first when it travels there, then nested JSON values; without `pay`: args = [number], kwargs = {}, no labels."""
+    p = e.get("pay")
+    if not p:
+        return [e["sid"]], {}, None, {}
+    car = p.get("carrier", "args")
+    items = ([e["sid"]] if car == "args" else []) + list(p.get("xargs") or [])
+    shape = p.get("args", "list")
+    args = None if shape == "missing" else tuple(items) if shape == "tuple" else collections.deque(items) if shape == "deque" \
+        else items
+    assert args is not None or not items
+    kwargs = p.get("kwargs")
+    if car == "kwargs":
+        kwargs = dict(kwargs or {}, sid=e["sid"])
+    labels = p.get("labels")
+    if car == "labels":
+        labels = dict(labels or {}, sid=e["sid"])
+    return args, (None if kwargs is None else dict(kwargs)), (None if labels is None else dict(labels)), dict(p.get("extra") or {})
+
+
 def make_sched(i, e):
-    kw = dict(task_name="task_%d" % i, labels={"src": i}, args=[e["sid"]], kwargs={}, schedule_id="s%d" % e["sid"])
+    args, kwargs, labels, _ = payload_of(e)
+    kw = dict(task_name=e.get("task") or "task_%d" % i, labels=dict(labels or {}, src=i), args=[] if args is None else args,
+              kwargs=kwargs or {}, schedule_id="s%d" % e["sid"])
     if e["kind"] == "one":
-        kw["time"] = to_naive(e["T"]) if e.get("naive", True) else EP + dt.timedelta(microseconds=e["T"])
+        kw["time"] = time_of(e)
     else:
         kw["cron"] = e["cron"]
-        if e.get("off"):
-            kw["cron_offset"] = cron_offset_of(e)
+    if e.get("off"):
+        kw["cron_offset"] = cron_offset_of(e)
     return ScheduledTask(**kw)
 
 
@@ -229,28 +283,47 @@ class Lab(Common, LabelScheduleSource):
     def __init__(self, idx, spec, case, broker):
         LabelScheduleSource.__init__(self, broker)
         self.idx, self.case, self.polls = idx, case, 0
-        self.tasks = {}
+        self.tasks, self.dicts, self.shared = {}, {}, {}
         for name in sorted({e["task"] for e in spec["entries"]}):
-            def fn():
+            def fn(*a, **k):
                 return None
             self.tasks[name] = broker.register_task(fn, task_name=name, schedule=[])
+        # dicts with neither `cron` nor `time` in a task's schedule list (the source skips them): [task, position, dict]
+        self.noise = [(t, pos, dict(d)) for t, pos, d in spec.get("noise", [])]
 
     def entry(self, e):
-        d = {"args": [e["sid"]], "_uid": e["sid"]}
+        p = e.get("pay") or {}
+        g = p.get("share")
+        if g is not None and g in self.shared:      # ONE dict object in the schedule lists of several tasks
+            return self.shared[g]
+        args, kwargs, labels, extra = payload_of(e)
+        d = dict(extra)
+        d["_uid"] = e["sid"]
+        for key, v in (("args", args), ("kwargs", kwargs), ("labels", labels)):
+            if v is not None:
+                d[key] = v
         if e["kind"] == "one":
-            d["time"] = to_naive(e["T"])
+            d["time"] = time_of(e)
         else:
             d["cron"] = e["cron"]
-            if e.get("off"):
-                d["cron_offset"] = cron_offset_of(e)
+        if e.get("off"):
+            d["cron_offset"] = cron_offset_of(e)
+        if g is not None:
+            self.shared[g] = d
         return d
 
     def add(self, e):
-        self.tasks[e["task"]].labels["schedule"].append(self.entry(e))
+        d = self.dicts[e["sid"]] = self.entry(e)
+        self.tasks[e["task"]].labels["schedule"].append(d)
 
     def delete(self, e):
         l = self.tasks[e["task"]].labels["schedule"]
-        l[:] = [x for x in l if x["_uid"] != e["sid"]]
+        l[:] = [x for x in l if x is not self.dicts.get(e["sid"])]
+
+    def add_noise(self):
+        for t, pos, d in self.noise:
+            l = self.tasks[t].labels["schedule"]
+            l.insert(min(pos, len(l)), d)
 
     async def get_schedules(self):
         k = self._begin()
@@ -268,6 +341,8 @@ def run_case(case, opts):
     loop = XLoop()
     asyncio.set_event_loop(loop)
     St.loop, St.base, St.log, St.attempts, St.src_index = loop, case["start"], [], {}, {}
+    St.by_task = {e["task"]: e["sid"] for spec in case["sources"] for e in spec["entries"]
+                  if (e.get("pay") or {}).get("carrier") == "task"}
     AsyncBroker.global_task_registry.clear()
     broker = Broker(case)
     sources, script = [], []
@@ -282,6 +357,8 @@ def run_case(case, opts):
                 script.append((e["add"], 0, src.add, e))
             if e.get("del") is not None:
                 script.append((e["del"], 1, src.delete, e))
+        if spec["kind"] == "label":
+            src.add_noise()
     script.sort(key=lambda x: (x[0], x[1]))
     sch = TaskiqScheduler(broker, sources)
     dead = {}
